@@ -56,6 +56,8 @@ def windows(per_channel_times):
             if s is not None and e is not None and e < s:
                 continue
             out.append((s, e))
+    # bounds that are exactly the epoch (a zero offset is a bound like any other)
+    out += [(None, 0), (0, None), (0, 0), (0, ts[len(ts) // 2])]
     return out
 
 
